@@ -219,6 +219,12 @@ def leaf_variants(value, attr="cn"):
 def check_roundtrip(f, label):
     try:
         text = str(f)
+        # parsing has no memory: the same text in another letter case is parsed first in this process (whatever it yields);
+        # a spelling remembered from it must not come back in the result for the original text
+        try:
+            LDAPFilter.from_string(text.swapcase())
+        except Exception:
+            pass
         g = LDAPFilter.from_string(text)
     except Exception as e:
         return [("C13", "from_string(str(f)) == f", repr(f)[:200], f"{label}: {type(e).__name__}: {str(e)[:100]}", None)]
